@@ -452,9 +452,20 @@ impl Exch {
 
     /// Is the current window one that property C05 owns (inside a 3xx head after a complete Location line)?
     fn kf1_window(&self) -> bool {
-        let Some((start, hlen, _, _)) = self.cfg.layout.get(self.msg_idx) else { return false };
-        let m = &self.cfg.server[self.msg_idx].msg;
-        if !(300..400).contains(&m.status) || self.consumed != *start {
+        self.kf1_window_of(self.msg_idx, self.consumed) || {
+            // an interim 100 that has completely arrived, followed by such a cut 3xx head: an implementation may
+            // skip the 100 and look at what follows in one and the same call
+            match self.cfg.layout.get(self.msg_idx) {
+                Some((start, hlen, _, _)) if self.cfg.server[self.msg_idx].msg.status == 100 && self.consumed == *start && self.arrived >= start + hlen => self.kf1_window_of(self.msg_idx + 1, start + hlen),
+                _ => false,
+            }
+        }
+    }
+
+    fn kf1_window_of(&self, msg_idx: usize, consumed: usize) -> bool {
+        let Some((start, hlen, _, _)) = self.cfg.layout.get(msg_idx) else { return false };
+        let m = &self.cfg.server[msg_idx].msg;
+        if !(300..400).contains(&m.status) || consumed != *start {
             return false;
         }
         if self.arrived >= start + hlen {
@@ -653,7 +664,9 @@ impl Exch {
         let Some((_, hlen, _, _)) = self.cfg.layout.get(idx).cloned() else {
             return Err((self.k("try-response", "harness"), "no pending message".into()));
         };
-        let m = &self.cfg.server[idx].msg;
+        let cfg = self.cfg.clone();
+        let (mut n, mut hlen, mut idx) = (n, hlen, idx);
+        let mut m = &cfg.server[idx].msg;
         if wl < hlen {
             // an internal state change alone (a memo, a scan offset) is followed by the explorer, not judged here
             if n != 0 || resp.is_some() || ready {
@@ -661,7 +674,10 @@ impl Exch {
             }
             return Ok(());
         }
-        if m.status == 100 && idx + 1 < self.cfg.server.len() {
+        // an interim 100 skipped in the same call that returns the real response (complete in the window as well)
+        let next_hlen = cfg.layout.get(idx + 1).map(|l| l.1).unwrap_or(usize::MAX);
+        let combined = m.status == 100 && idx + 1 < cfg.server.len() && resp.as_ref().map(|r| r.status().as_u16() != 100).unwrap_or(false) && n > hlen && wl >= hlen.saturating_add(next_hlen) && n == hlen + next_hlen;
+        if m.status == 100 && idx + 1 < self.cfg.server.len() && !combined {
             let awaited = self.cfg.req.expects_100() && self.cfg.req.body_due() && !self.got_100;
             if !awaited {
                 // a stray 100 (nobody is waiting for one): handed out as an interim response or skipped -
@@ -674,7 +690,7 @@ impl Exch {
                 self.msg_idx += 1;
                 return Ok(());
             }
-            // late interim response: skipped exactly once
+            // late interim response: skipped exactly once (in a call of its own; the combined form is handled below)
             if n != hlen || resp.is_some() || ready {
                 return Err((self.k("try-response", "late-100-not-skipped"), format!("late 100 response: returned ({}, {}), ready {}", n, if resp.is_some() { "Some" } else { "None" }, ready)));
             }
@@ -683,6 +699,16 @@ impl Exch {
             self.msg_idx += 1;
             return Ok(());
         }
+        if combined {
+            self.got_100 = true;
+            self.consumed += hlen;
+            self.msg_idx += 1;
+            idx += 1;
+            n -= hlen;
+            hlen = next_hlen;
+            m = &cfg.server[idx].msg;
+        }
+        let _ = idx;
         let Some(resp) = resp else {
             return Err((self.k("try-response", "complete-head-not-accepted"), format!("complete head ({} bytes) in a window of {} bytes: returned ({}, None)", hlen, wl, n)));
         };
